@@ -319,6 +319,11 @@ def run(ctx):
         for order in ("lt", "t", "l"):
             for tp, lt in ((0.251, 4.013), (0.7, 2.5), (0.334, 11.9)):
                 mitems.append((isa, "ibench", tp, lt, order))
+        # every combination of accepted / rejected throughput and latency in one form
+        for kind in ("ibench", "asmbench"):
+            for tp in (0.251, 0.7, 0.3, 1.5):
+                for lt in (4.013, 2.5, 7.3, 0.3):
+                    mitems.append((isa, kind, tp, lt, "tl"))
     # (3) asmbench block structure
     bitems = [(isa, t) for isa in ("x86", "aarch64") for L in (1, 2, 3)
               for t in itertools.product(BLOCK_KINDS, repeat=L)]
